@@ -11,6 +11,8 @@ mod ops;
 mod ops_common;
 #[cfg(feature = "stateres")]
 mod ops_stateres;
+#[cfg(feature = "events")]
+mod ops_events;
 
 pub fn hex(s: &str) -> Vec<u8> {
     (0..s.len() / 2).map(|i| u8::from_str_radix(&s[2 * i..2 * i + 2], 16).unwrap()).collect()
